@@ -194,25 +194,26 @@ func (w *lkWorld) abs(rel int) time.Time { return w.t0.Add(time.Duration(rel) * 
 
 // lkRun replays one behaviour.
 type lkRun struct {
-	w         *lkWorld
-	env       *Env
-	b         lockBehaviour
-	bucket    string
-	versioned bool
-	cl        map[string]*s3c.Client
-	tracked   []lkVersion
-	lastObs   []lkObs
-	newNames  []string // versions created by the program (names, creation order)
-	nnew      int
-	lockOn    bool
-	lines     []map[string]any
-	meta      []lkLineMeta
-	xMax      time.Time // latest short ("X") retention date handed out
-	skipped   int
-	diverge   map[string]int
-	divSample map[string]any
-	transport string // a request got no HTTP reply (timeout, reset): the run is discarded and repeated
-	destroyed bool   // a destroying request was issued while P was alive
+	w           *lkWorld
+	env         *Env
+	b           lockBehaviour
+	bucket      string
+	versioned   bool
+	cl          map[string]*s3c.Client
+	tracked     []lkVersion
+	lastObs     []lkObs
+	newNames    []string // versions created by the program (names, creation order)
+	nnew        int
+	lockOn      bool
+	lockAssumed bool // lock on by acknowledged creation although the gateway does not report it
+	lines       []map[string]any
+	meta        []lkLineMeta
+	xMax        time.Time // latest short ("X") retention date handed out
+	skipped     int
+	diverge     map[string]int
+	divSample   map[string]any
+	transport   string // a request got no HTTP reply (timeout, reset): the run is discarded and repeated
+	destroyed   bool   // a destroying request was issued while P was alive
 }
 
 type lkLineMeta struct {
@@ -368,6 +369,18 @@ func (r *lkRun) setupErr(what string, rs *s3c.Resp) error {
 func (r *lkRun) setup() error {
 	root, b := r.cl["root"], r.bucket
 	lockHdr := s3c.KV{K: "X-Amz-Bucket-Object-Lock-Enabled", V: "true"}
+	if r.w.seq%3 == 1 {
+		// the bucket name had an earlier life WITHOUT Object Lock: whatever the gateway
+		// remembers of that bucket must not weaken the protections of the new one
+		if rs := CreateBucket(root, b); rs.OK() {
+			PutObject(root, b, "earlier-life", []byte("x"))
+			DeleteObject(root, b, "earlier-life")
+			root.Do(s3c.Req{Method: "GET", Path: "/" + b, Query: []s3c.KV{{K: "object-lock"}}})
+			if rs := DeleteBucket(root, b); !rs.OK() {
+				return r.setupErr("delete the earlier bucket of that name", rs)
+			}
+		}
+	}
 	if r.w.seq%2 == 0 {
 		// the owner (role userplus) creates the bucket
 		if rs := CreateBucket(r.cl["owner"], b, lockHdr); !rs.OK() {
@@ -445,8 +458,15 @@ func (r *lkRun) setup() error {
 	if r.b.Ini.Kind == "governance2" && fmt.Sprint(obs[1].Ret["mode"]) != "GOVERNANCE" {
 		return fmt.Errorf("set-up did not establish GOVERNANCE on k2: observed %+v", obs[1])
 	}
-	if !p.Alive || p.Hold != wantHold || fmt.Sprint(p.Ret["mode"]) != wantMode || !r.lockOn {
+	if !p.Alive || p.Hold != wantHold || fmt.Sprint(p.Ret["mode"]) != wantMode {
 		return fmt.Errorf("set-up did not establish %s: observed %+v lockOn=%v", r.b.Ini.Kind, p, r.lockOn)
+	}
+	if !r.lockOn {
+		// the bucket was created with Object Lock and the creation was acknowledged; that the
+		// gateway does not report the configuration changes nothing about what it promised:
+		// the behaviour runs from "lock on" (until a lock-configuration request is accepted)
+		r.lockAssumed = true
+		r.lockOn = true
 	}
 	for _, o := range obs {
 		if !o.Alive {
@@ -524,7 +544,9 @@ func (r *lkRun) observe() []lkObs {
 	}
 	lc := root.Do(s3c.Req{Method: "GET", Path: "/" + b, Query: []s3c.KV{{K: "object-lock"}}})
 	r.noReply("observe lock configuration", lc)
-	r.lockOn = lc.OK() && bytes.Contains(lc.Body, []byte("<ObjectLockEnabled>Enabled</ObjectLockEnabled>"))
+	if on := lc.OK() && bytes.Contains(lc.Body, []byte("<ObjectLockEnabled>Enabled</ObjectLockEnabled>")); on || !r.lockAssumed {
+		r.lockOn = on
+	}
 	r.lastObs = out
 	return out
 }
@@ -781,6 +803,9 @@ func (r *lkRun) step(i int) {
 		mode := str(a, "mode")
 		rs = lkPutLockConfig(cl, b, lkBool(a["enabled"]), mode)
 		ok = rs.OK()
+		if ok {
+			r.lockAssumed = false
+		}
 		if mode != "NONE" {
 			reqdef = map[string]any{"mode": mode, "until": r.w.rel(time.Now()) + 86400}
 		}
